@@ -21,6 +21,24 @@ CALC_TAGS = ("x", "y", "z")
 ALL_TAGS = KEY_TAGS + NONKEY_TAGS + CALC_TAGS + ("q",)
 
 
+EFN_NAME = "vf_scale"
+EFN_FACTORS = {"e1": 2, "e2": 3}
+
+
+def efn_impl(engine_name):
+    k = EFN_FACTORS[engine_name]
+    return lambda x: k * x
+
+
+def bind_engine(e, engine_name):
+    """Replace every ("efn", x) by the arithmetic it means in the named engine."""
+    if not isinstance(e, tuple) or not e or not isinstance(e[0], str):
+        return e
+    if e[0] == "efn":
+        return ("mul", bind_engine(e[1], engine_name), ("lit", EFN_FACTORS[engine_name]))
+    return tuple(bind_engine(x, engine_name) if isinstance(x, tuple) else x for x in e)
+
+
 @functools.cache
 def tag(name: str):
     """Library column tag for a name.  ``n``, ``d``, ``d2``, ``f`` are non-key columns."""
@@ -46,6 +64,11 @@ def names(tagset) -> frozenset:
 #            ("in_seq", e, (e...)) ("in_seq_list", e, (e...))   [list-backed sequence]
 #            ("only", engine_kind, p)   engine-restricted predicate function wrapper (p is a comparison)
 #            ("conly", engine_kind, e)  engine-restricted scalar function (e is neg/add/..)
+#            ("efn", e)                 named function "vf_scale" registered in every iteration engine's
+#                                       ``functions`` table (the documented extension point) with an
+#                                       engine-specific meaning (x -> EFN_FACTORS[engine] * x): the node that
+#                                       holds it must be evaluated by ITS engine wherever the tree goes.  Only
+#                                       for alphabets without preferred-engine calls (bind_engine()).
 _CMP = {"eq": "__eq__", "ne": "__ne__", "lt": "__lt__", "le": "__le__", "gt": "__gt__", "ge": "__ge__"}
 _ARITH = {"add": "__add__", "sub": "__sub__", "mul": "__mul__"}
 _PYCMP = {
@@ -109,6 +132,8 @@ def _to_lib(e):
         return to_lib(e[1]).method("__neg__")
     if k in _ARITH:
         return to_lib(e[1]).method(_ARITH[k], to_lib(e[2]))
+    if k == "efn":
+        return ColumnExpression.function(EFN_NAME, to_lib(e[1]))
     if k == "conly":
         inner = e[2]
         if inner[0] == "neg":
@@ -163,6 +188,8 @@ def ref_eval(e, row):
         return _PYCMP[k](ref_eval(e[1], row), ref_eval(e[2], row))
     if k in ("only", "conly"):
         return ref_eval(e[2], row)
+    if k == "efn":
+        raise AssertionError("efn node not bound to an engine (bind_engine)")
     if k == "and":
         return all(bool(ref_eval(p, row)) for p in e[1:])
     if k == "or":
@@ -267,6 +294,8 @@ def fmt(e) -> str:
         return f"{fmt(e[1])} in [{', '.join(fmt(i) for i in e[2])}]"
     if k in ("only", "conly"):
         return f"{fmt(e[2])}@{e[1]}"
+    if k == "efn":
+        return f"{EFN_NAME}({fmt(e[1])})"
     return repr(e)
 
 
